@@ -550,12 +550,12 @@ Section Master.
     out_is_err (out_of (fun _ : hresp => ODone) (client_do (err_resp e))) = true.
   Proof. intros W. unfold err_resp. now rewrite (client_do_err _ (wf_code_status _ W)). Qed.
 
-  Theorem model_meets_spec o :
-    let '(calls, out) := run_op X fs ep o in spec_ok X fs ep o calls out = true.
+  Theorem model_meets_spec_exact o :
+    let '(calls, out) := run_op X fs ep o in spec_exact X fs ep o calls out = true.
   Proof.
     destruct o as [n|n r|n|n ch|n|n|n d nr no|n d no]; cbn [run_op].
     - (* Stat *)
-      unfold spec_ok. tgt. destruct (fs_stat fs (resolve_href ep n)) as [fi|e] eqn:S.
+      unfold spec_exact. tgt. destruct (fs_stat fs (resolve_href ep n)) as [fi|e] eqn:S.
       + destruct (wf_info X fi) eqn:W.
         * rewrite (stat_roundtrip X L fs ep n fi S W). apply outcome_eqb_refl.
         * now destruct (client_stat X fs ep n).
@@ -563,7 +563,7 @@ Section Master.
         * rewrite (stat_error X fs ep n e S W). reflexivity.
         * now destruct (client_stat X fs ep n).
     - (* ReadDir *)
-      unfold spec_ok. tgt. destruct (fs_stat fs (resolve_href ep n)) as [fi|e] eqn:S.
+      unfold spec_exact. tgt. destruct (fs_stat fs (resolve_href ep n)) as [fi|e] eqn:S.
       + destruct (i_dir fi) eqn:D.
         * destruct (fs_readdir fs (resolve_href ep n) r) as [l|e] eqn:R.
           -- destruct (forallb (wf_info X) l) eqn:W.
@@ -580,7 +580,7 @@ Section Master.
         * rewrite (readdir_stat_error X fs ep n r e S W). reflexivity.
         * now destruct (client_readdir X fs ep n r).
     - (* Open *)
-      unfold spec_ok. tgt. destruct (fs_stat fs (resolve_href ep n)) as [fi|e] eqn:S.
+      unfold spec_exact. tgt. destruct (fs_stat fs (resolve_href ep n)) as [fi|e] eqn:S.
       + destruct (i_dir fi) eqn:D.
         * rewrite (open_collection fs ep n fi S D). reflexivity.
         * destruct (fs_open fs (resolve_href ep n)) as [b|e] eqn:O.
@@ -593,21 +593,21 @@ Section Master.
         * rewrite (open_stat_error fs ep n e S W). reflexivity.
         * now destruct (client_open fs ep n).
     - (* Create *)
-      unfold spec_ok, client_create, srv_put. tgt. rewrite calls_eqb_refl. cbn [andb].
+      unfold spec_exact, client_create, srv_put. tgt. rewrite calls_eqb_refl. cbn [andb].
       destruct (fs_create fs (resolve_href ep n) (String.concat "" ch)) as [c|e] eqn:C.
       + now destruct c.
       + destruct (wf_code e) eqn:W; [|reflexivity]. now apply err_out.
     - (* RemoveAll *)
-      unfold spec_ok, client_remove_all, srv_delete. tgt. rewrite calls_eqb_refl. cbn [andb].
+      unfold spec_exact, client_remove_all, srv_delete. tgt. rewrite calls_eqb_refl. cbn [andb].
       destruct (fs_remove_all fs (resolve_href ep n)) as [c|e] eqn:C; [reflexivity|].
       destruct (wf_code e) eqn:W; [|reflexivity]. now apply err_out.
     - (* Mkdir *)
-      unfold spec_ok, client_mkdir, srv_mkcol. tgt. cbn [String.eqb negb]. rewrite calls_eqb_refl. cbn [andb].
+      unfold spec_exact, client_mkdir, srv_mkcol. tgt. cbn [String.eqb negb]. rewrite calls_eqb_refl. cbn [andb].
       destruct (fs_mkdir fs (resolve_href ep n)) as [c|e] eqn:C; [reflexivity|].
       destruct (wf_code e) eqn:W; [|reflexivity].
       destruct (is_not_found e); [reflexivity|]. now apply err_out.
     - (* Copy *)
-      unfold spec_ok. tgt.
+      unfold spec_exact. tgt.
       pose proof (copy_call fs ep n d nr no) as CC.
       destruct (client_copy fs ep n d nr no) as [calls out] eqn:E. cbn [fst] in CC. subst calls.
       rewrite calls_eqb_refl. cbn [andb].
@@ -619,7 +619,7 @@ Section Master.
         pose proof (created_resp_ok (FErr e) ltac:(intros e' H; inversion H; subst; exact W)) as Dn.
         cbn [done_matches] in Dn. destruct (out_of _ _); try discriminate; reflexivity.
     - (* Move *)
-      unfold spec_ok. tgt.
+      unfold spec_exact. tgt.
       pose proof (move_call fs ep n d no) as CC.
       destruct (client_move fs ep n d no) as [calls out] eqn:E. cbn [fst] in CC. subst calls.
       rewrite calls_eqb_refl. cbn [andb].
@@ -631,7 +631,85 @@ Section Master.
         pose proof (created_resp_ok (FErr e) ltac:(intros e' H; inversion H; subst; exact W)) as Dn.
         cbn [done_matches] in Dn. destruct (out_of _ _); try discriminate; reflexivity.
   Qed.
+
+  (** the strict reading implies the outcome clause, whatever the calls *)
+  Lemma spec_exact_outcome o calls out :
+    spec_exact X fs ep o calls out = true -> outcome_ok X fs ep o out = true.
+  Proof.
+    destruct o as [n|n r|n|n ch|n|n|n d nr no|n d no]; unfold spec_exact, outcome_ok; intros H;
+      try exact H; try (apply andb_true_iff in H as [_ H]; exact H).
+    destruct (fs_stat fs (spec_target ep n)) as [fi|e]; [|exact H].
+    destruct (i_dir fi); [|exact H].
+    destruct (fs_readdir fs (spec_target ep n) r) as [l|e]; [|exact H].
+    destruct (forallb (wf_info X) l); [|reflexivity]. now apply andb_true_iff in H as [H _].
+  Qed.
+
+  Lemma calls_ok_reads p : calls_ok [p] [] [CStat p] = true /\
+    (forall r, calls_ok [p] [] [CStat p; CReadDir p r] = true) /\ calls_ok [p] [] [CStat p; COpen p] = true.
+  Proof. unfold calls_ok. cbn. rewrite String.eqb_refl. auto. Qed.
+
+  Lemma calls_ok_one names c : is_mutating c = true -> calls_ok names [c] [c] = true.
+  Proof. intros M. unfold calls_ok. cbn. rewrite M. cbn. now rewrite call_eqb_refl. Qed.
+
+  (** the calls the model makes are acceptable *)
+  Lemma model_calls_ok o :
+    calls_ok (referred_names ep o) (expected_mutations ep o) (fst (run_op X fs ep o)) = true.
+  Proof.
+    destruct o as [n|n r|n|n ch|n|n|n d nr no|n d no]; cbn [run_op referred_names expected_mutations]; tgt.
+    - unfold client_stat. destruct (fs_stat fs (resolve_href ep n)) as [fi|e] eqn:S.
+      + rewrite (propfind_d0 X fs _ fi S). apply calls_ok_reads.
+      + rewrite (propfind_err X fs _ D0 e S). apply calls_ok_reads.
+    - unfold client_readdir. destruct (fs_stat fs (resolve_href ep n)) as [fi|e] eqn:S.
+      + destruct (i_dir fi) eqn:D.
+        * rewrite (propfind_dir X fs _ r fi S D).
+          destruct (fs_readdir fs (resolve_href ep n) r); apply calls_ok_reads.
+        * rewrite (propfind_file X fs _ _ fi S D). apply calls_ok_reads.
+      + rewrite (propfind_err X fs _ _ e S). apply calls_ok_reads.
+    - unfold client_open, srv_get. destruct (fs_stat fs (resolve_href ep n)) as [fi|e]; [|apply calls_ok_reads].
+      destruct (i_dir fi); [apply calls_ok_reads|]. destruct (fs_open fs (resolve_href ep n)); apply calls_ok_reads.
+    - rewrite create_call. now apply calls_ok_one.
+    - rewrite remove_all_call. now apply calls_ok_one.
+    - rewrite mkdir_call. now apply calls_ok_one.
+    - rewrite copy_call. now apply calls_ok_one.
+    - rewrite move_call. now apply calls_ok_one.
+  Qed.
+
+  (** the model meets the specification *)
+  Theorem model_meets_spec o :
+    let '(calls, out) := run_op X fs ep o in spec_ok X fs ep o calls out = true.
+  Proof.
+    pose proof (model_meets_spec_exact o) as E. pose proof (model_calls_ok o) as C.
+    destruct (run_op X fs ep o) as [calls out]. cbn [fst] in C. unfold spec_ok.
+    now rewrite C, (spec_exact_outcome o calls out E).
+  Qed.
 End Master.
+
+(** ** What the specification tolerates and what it does not *)
+
+(** a read-only call naming a resource the request refers to may be added anywhere *)
+Theorem calls_ok_extra_read names expected l1 l2 c :
+  is_mutating c = false -> name_in (read_name c) names = true ->
+  calls_ok names expected (l1 ++ l2) = true -> calls_ok names expected (l1 ++ c :: l2) = true.
+Proof.
+  unfold calls_ok. intros M N H. apply andb_true_iff in H as [H1 H2].
+  rewrite filter_app in *. cbn [filter]. rewrite M, H1. cbn [andb].
+  rewrite forallb_app in *. cbn [forallb]. apply andb_true_iff in H2 as [A B]. now rewrite A, B, N, orb_true_r.
+Qed.
+
+(** ... but one naming anything else is refused, *)
+Theorem calls_ok_foreign_read names expected l1 l2 c :
+  is_mutating c = false -> name_in (read_name c) names = false ->
+  calls_ok names expected (l1 ++ c :: l2) = false.
+Proof.
+  unfold calls_ok. intros M N. apply andb_false_iff. right.
+  rewrite forallb_app. cbn [forallb]. rewrite M, N. cbn. now rewrite andb_false_r.
+Qed.
+
+(** ... and the mutating calls are exactly the expected ones, in order *)
+Theorem calls_ok_mutations names expected calls :
+  calls_ok names expected calls = true -> calls_eqb (filter is_mutating calls) expected = true.
+Proof. unfold calls_ok. intros H. now apply andb_true_iff in H as [H _]. Qed.
+
 
 (** * LocalFileSystem on a tree: what ReadDir lists *)
 
